@@ -223,6 +223,14 @@ def Chan.step324 (c : Chan) (ch : Char × Char × Option Str) : Option Chan :=
 
 /-! ### `Irc` / `IrcState` -/
 
+/-- the part of `irc.state.supported` (RPL_ISUPPORT) the state tracking reads: CHANTYPES and CHANNELLEN
+(`none` = never announced, `some none` = announced without a value).  PREFIX, CHANMODES and CASEMAPPING are
+stored by the real code as well but never consulted: sigils, mode classes and case folding are hard-coded. -/
+structure Isup where
+  chantypes : Option (Option Str) := none
+  channellen : Option (Option Int) := none
+deriving Repr, DecidableEq, Inhabited
+
 structure Bot where
   /-- `irc.nick` -/
   nick : Str
@@ -235,6 +243,7 @@ structure Bot where
   /-- configured nick / ident (`_setNonResettingVariables`) -/
   cfgNick : Str
   cfgIdent : Str
+  isup : Isup := {}
 deriving Repr, DecidableEq, Inhabited
 
 def unsetDomain : Str := "unset.domain".toList
@@ -244,13 +253,30 @@ def Bot.init (nick ident : Str) : Bot :=
   { nick := nick, pfx := mkHostmask nick ident unsetDomain, cfgNick := nick, cfgIdent := ident }
 def Bot.reset (b : Bot) : Bot := Bot.init b.cfgNick b.cfgIdent
 
-/-- `ircutils.isChannel` with the default `chantypes` / `channellen` -/
-def isChannel (s : Str) : Bool :=
+/-- `ircutils.isChannel(s, chantypes, channellen)`; `none` = TypeError (a parameter is `None`) -/
+def isChannelWith (chantypes : Option Str) (channellen : Option Int) (s : Str) : Option Bool :=
   match s with
-  | [] => false
+  | [] => some false
   | c0 :: _ =>
-    !s.contains ',' && !s.contains (Char.ofNat 7) && Gen.chantypes.contains c0 &&
-      decide (s.length ≤ Gen.channellen) && splitWs s == [s]
+    if s.contains ',' || s.contains (Char.ofNat 7) then some false
+    else
+      match chantypes with
+      | none => none
+      | some ct =>
+        if !ct.contains c0 then some false
+        else
+          match channellen with
+          | none => none
+          | some n => some (decide ((s.length : Int) ≤ n) && splitWs s == [s])
+
+/-- `Irc.isChannel`: `ircutils.isChannel` with CHANTYPES / CHANNELLEN from 005 when announced with a value,
+else the defaults (a token announced without a value is stored as `None` and skipped) -/
+def Bot.isChannel (b : Bot) (s : Str) : Option Bool :=
+  isChannelWith (some ((b.isup.chantypes.bind id).getD Gen.chantypes))
+    (some ((b.isup.channellen.bind id).getD (Gen.channellen : Int))) s
+
+/-- `ircutils.isChannel` with the default `chantypes` / `channellen` -/
+def isChannel (s : Str) : Bool := (isChannelWith (some Gen.chantypes) (some (Gen.channellen : Int)) s).getD false
 
 def Bot.chan (b : Bot) (name : Str) : Option Chan := aget b.channels (lower name)
 def Bot.setChan (b : Bot) (name : Str) (c : Chan) : Bot :=
@@ -292,7 +318,7 @@ def nth (l : List Str) (i : Nat) : Option Str := l[i]?
 /-- commands with a handler in the model (`dispatchCommand`: `'do' + command.upper().capitalize()`) -/
 inductive Cmd
   | join | part | kick | quit | topic | n332 | nick | mode | n324 | n329 | n353 | n352 | n354 | n367
-  | chghost | n315 | other
+  | chghost | n315 | n005 | other
 deriving Repr, DecidableEq, Inhabited
 
 def cmdOf (cmd : Str) : Cmd :=
@@ -313,6 +339,7 @@ def cmdOf (cmd : Str) : Cmd :=
   else if key = "367".toList then .n367
   else if key = "CHGHOST".toList then .chghost
   else if key = "315".toList then .n315
+  else if key = "005".toList then .n005
   else .other
 
 /-! the handlers of `IrcState`; the Bool says "raised" -/
@@ -375,10 +402,30 @@ def Bot.doMode (b : Bot) (m : Msg) : Bot × Bool :=
   match m.args with
   | [] => (b, true)
   | ch :: rest =>
-    if isChannel ch then
+    match b.isChannel ch with
+    | none => (b, true)
+    | some true =>
       let r := (b.chanOrNew ch).doMode rest
       (b.setChan ch r.1, r.2)
-    else (b, false)
+    | some false => (b, false)
+
+/-- one token of RPL_ISUPPORT (`IrcState.do005`; a failing converter is logged, the token skipped) -/
+def Bot.token005 (b : Bot) (arg : Str) : Bot :=
+  match split1 '=' arg with
+  | some (name, value) =>
+    if asciiLower name = "chantypes".toList then { b with isup := { b.isup with chantypes := some (some value) } }
+    else if asciiLower name = "channellen".toList then
+      match pyInt value with
+      | some n => { b with isup := { b.isup with channellen := some (some n) } }
+      | none => b
+    else b
+  | none =>
+    if asciiLower arg = "chantypes".toList then { b with isup := { b.isup with chantypes := some none } }
+    else if asciiLower arg = "channellen".toList then { b with isup := { b.isup with channellen := some none } }
+    else b
+
+def Bot.do005 (b : Bot) (m : Msg) : Bot × Bool :=
+  (((m.args.drop 1).dropLast).foldl Bot.token005 b, false)
 
 def Bot.do324 (b : Bot) (m : Msg) : Bot × Bool :=
   match m.args with
@@ -462,6 +509,7 @@ def Bot.stateCmd (b : Bot) (m : Msg) : Bot × Bool :=
   | .n367 => b.do367 m
   | .chghost => b.doChghost m
   | .n315 => (b, false)
+  | .n005 => b.do005 m
   | .other => (b, false)
 
 /-- `IrcState.addMsg`: hostmask bookkeeping, then the command handler -/
@@ -507,8 +555,16 @@ def Bot.ircCmd (b : Bot) (m : Msg) : Bot × Bool :=
   | .chghost => b.ircChghost m
   | _ => (b, false)
 
+/-- `_tagMsg` / `_setMsgChannel`: `self.isChannel(msg.args[0])` raises when 005 announced CHANTYPES /
+CHANNELLEN without a value -/
+def Bot.tagRaises (b : Bot) (m : Msg) : Bool :=
+  match m.args with
+  | a0 :: _ => (b.isChannel a0).isNone
+  | [] => false
+
 /-- `Irc.feedMsg` restricted to `irc.nick`, `irc.prefix` and `irc.state` (`irc.server` is not modelled) -/
 def Bot.feed (b : Bot) (m0 : Msg) : Bot × Exc :=
+  if b.tagRaises m0 then (b, .irc) else
   -- "odd nick-instead-of-prefix" messages
   let m := if m0.pfx = b.nick then { m0 with pfx := if b.pfx.isEmpty then m0.pfx else b.pfx } else m0
   let b := if m.nick = b.nick && b.pfx != m.pfx then { b with pfx := m.pfx } else b
@@ -538,6 +594,7 @@ def joinRequests (a0 : Str) : List Msg :=
 
 /-- what `feedMsg` makes the bot send (only the requests of `Irc.doJoin` are modelled) -/
 def Bot.out (b : Bot) (m0 : Msg) : List Msg :=
+  if b.tagRaises m0 then [] else
   let m := if m0.pfx = b.nick then { m0 with pfx := if b.pfx.isEmpty then m0.pfx else b.pfx } else m0
   let nick := if m.cmd ∈ Gen.nickSetters then (match m.args with | a0 :: _ => a0 | [] => b.nick) else b.nick
   match cmdOf m.cmd, m.args with
